@@ -12,7 +12,7 @@ Local Open Scope N_scope.
 Definition ck_comma : N := 44.
 
 (* the comma-separated-list-of-unique-values loop (1577-1598): [scratch] is scratchStr, kept reversed.
-   [keep_esc] = the repair of finding F39: the escape characters stay in the item (as found they are dropped here
+   [keep_esc] = the repair of finding F52: the escape characters stay in the item (as found they are dropped here
    although DoDirectChildLookup unescapes the item once more, which turns the item a\\b into ab) *)
 Fixpoint uv_loop (keep_esc : bool) (s : list N) (prevEsc : bool) (scratch : list N) : list (list N) :=
   match s with
